@@ -46,7 +46,13 @@ impl<F> RankCalc<F> {
                     // the rank computed from this iteration.
                     ranks[child_fn_id.index()] = cmp::max(child_rank_existing, child_rank_maybe);
 
-                    fn_ids.push_back(child_fn_id);
+                    // Only revisit the child when its rank grew: its successors' ranks
+                    // cannot change otherwise. Re-queueing unconditionally visits every
+                    // function once per path leading to it, which is exponential for
+                    // layered graphs.
+                    if child_rank_maybe > child_rank_existing {
+                        fn_ids.push_back(child_fn_id);
+                    }
                 });
         }
 
